@@ -324,3 +324,187 @@ Proof.
       rewrite Hl by exact HS. cbn [bind]. unfold r5off, r2off. f_equal. f_equal. f_equal.
       nlen_norm. lia.
 Qed.
+
+(* ------------------------------------------------------------------ whole CIE entry *)
+Definition cie_idv (c : scfg) (fmt64 : bool) : N :=
+  if sc_eh c then 0 else if fmt64 then 18446744073709551615 else 4294967295.
+Definition idsz_of (c : scfg) (fmt64 : bool) : nat := if cie_id_is_u64 (sc_eh c) fmt64 then 8%nat else 4%nat.
+
+Lemma cie_id_bytes : forall c fmt64, cie_id (sp_of c) fmt64 = un_bytes (idsz_of c fmt64) (sc_be c) (cie_idv c fmt64).
+Proof.
+  intros. unfold cie_id, idsz_of, cie_idv, cie_id_is_u64. cbn [sp_of s_eh s_be].
+  destruct (sc_eh c), fmt64; reflexivity.
+Qed.
+
+Lemma is_cie_idv : forall c fmt64, is_cie (sc_eh c) fmt64 (cie_idv c fmt64) = true.
+Proof. intros. unfold is_cie, cie_idv. destruct (sc_eh c), fmt64; reflexivity. Qed.
+
+Lemma cie_idv_lt : forall c fmt64, cie_idv c fmt64 < 256 ^ N.of_nat (idsz_of c fmt64).
+Proof.
+  intros. unfold cie_idv, idsz_of, cie_id_is_u64. destruct (sc_eh c), fmt64; cbn [negb andb]; vm_compute; reflexivity.
+Qed.
+
+Definition cie_body (c : scfg) (cr : cie_rec) : list byte := cie_id (sp_of c) (c_fmt64 cr) ++ cie_tail (sp_of c) cr.
+Definition body_fits (fmt64 : bool) (body : list byte) : Prop := blen body < (if fmt64 then 2 ^ 64 else 4294967280).
+
+(* offset of the tail (after length and id) of an entry placed at o *)
+Definition tail_off (c : scfg) (fmt64 : bool) (o : N) : N := o + len_field_size fmt64 + N.of_nat (idsz_of c fmt64).
+
+Lemma parse_cfi_entry_cie : forall dbg c cr o rest aug,
+  wf_cie c cr -> body_fits (c_fmt64 cr) (cie_body c cr) ->
+  exp_aug c cr (cie_dpos c cr (tail_off c (c_fmt64 cr) o)) = Some aug ->
+  parse_cfi_entry dbg c (mkrd o (enc_cie (sp_of c) cr ++ rest)) =
+  Ok (Some (ICie (exp_cie c cr o (blen (cie_body c cr)) (tail_off c (c_fmt64 cr) o) aug)),
+      mkrd (o + blen (enc_cie (sp_of c) cr)) rest).
+Proof.
+  intros dbg c cr o rest aug Hwf Hfit Haug. unfold parse_cfi_entry, enc_cie. cbv zeta.
+  fold (cie_body c cr). cbn [s_be sp_of]. unfold cie_body in *. rewrite cie_id_bytes in *.
+  rewrite <- app_assoc.
+  pose proof (parse_prefix_enc c (c_fmt64 cr) (cie_idv c (c_fmt64 cr)) (cie_tail (sp_of c) cr) rest o) as Hp.
+  cbv zeta in Hp. unfold idsz_of in *. rewrite Hp; [|apply cie_idv_lt|exact Hfit]. clear Hp.
+  cbn [bind px_fmt64 px_id]. rewrite is_cie_idv.
+  rewrite (cie_from_prefix_enc dbg c cr _ _ _ _ _ aug Hwf Haug). cbn [bind].
+  do 3 f_equal. nlen_norm. rewrite nlen_initial_length. lia.
+Qed.
+
+Lemma cie_from_offset_enc : forall dbg c cr pre post aug,
+  wf_cie c cr -> body_fits (c_fmt64 cr) (cie_body c cr) ->
+  exp_aug c cr (cie_dpos c cr (tail_off c (c_fmt64 cr) (nlen pre))) = Some aug ->
+  cie_from_offset dbg c (pre ++ enc_cie (sp_of c) cr ++ post) (nlen pre) =
+  Ok (exp_cie c cr (nlen pre) (blen (cie_body c cr)) (tail_off c (c_fmt64 cr) (nlen pre)) aug).
+Proof.
+  intros dbg c cr pre post aug Hwf Hfit Haug. unfold cie_from_offset.
+  rewrite rd_skip_app. cbn [bind]. rewrite N.add_0_l.
+  unfold enc_cie. cbv zeta. fold (cie_body c cr). cbn [s_be sp_of]. unfold cie_body in *. rewrite cie_id_bytes in *.
+  rewrite <- app_assoc.
+  pose proof (parse_prefix_enc c (c_fmt64 cr) (cie_idv c (c_fmt64 cr)) (cie_tail (sp_of c) cr) post (nlen pre)) as Hp.
+  cbv zeta in Hp. unfold idsz_of in *. rewrite Hp; [|apply cie_idv_lt|exact Hfit]. clear Hp.
+  cbn [bind px_fmt64 px_id]. rewrite is_cie_idv. cbn [negb].
+  apply (cie_from_prefix_enc dbg c cr _ _ _ _ _ aug Hwf Haug).
+Qed.
+
+(* ------------------------------------------------------------------ FDE *)
+Definition sb_pb (b : sbases) (func : option N) : pbases := mkpb (sb_section b) (sb_text b) (sb_data b) func.
+
+Definition enc_ok (e : N) : bool := (e <? 256) && valid_spec e && negb (e =? 255).
+
+(* the FDE the reader must produce (None: the record is not well formed for its CIE).
+   ci = its parsed CIE, cr = the CIE record, tf = offset of the FDE's tail in the section *)
+Definition exp_fde (c : scfg) (cr : cie_rec) (ci : cie) (f : fde_rec) (o len tf : N) : option fde :=
+  let asz := cie_asz (sp_of c) cr in
+  let be := sc_be c in
+  let b := sc_bases c in
+  let afmt := match find_R (c_items cr) with Some e => fmt_of e | None => 0 end in
+  let e_init := enc_value afmt asz be (f_init f) in
+  let e_range := enc_value afmt asz be (f_range f) in
+  let ad := (match find_L (c_items cr) with Some e => enc_value (fmt_of e) asz be (f_lsda f) | None => [] end) ++ f_pad f in
+  let pos2 := tf + nlen e_init + nlen e_range in
+  let addr : option N :=
+    match find_R (c_items cr) with
+    | Some e =>
+        if enc_ok e && value_fits (fmt_of e) asz (f_init f) && value_fits (fmt_of e) asz (f_range f) then
+          match ptr_spec e asz (sb_pb b None) tf (f_init f) with Some (_, a) => Some a | None => None end
+        else None
+    | None => if (f_init f <? 2 ^ (8 * asz)) && (f_range f <? 2 ^ (8 * asz)) then Some (f_init f) else None
+    end in
+  match addr with
+  | None => None
+  | Some ia =>
+      if has_aug cr then
+        if blen ad <? 2 ^ 64 then
+          let pos3 := pos2 + nlen (enc_uleb (blen ad)) in
+          match find_L (c_items cr) with
+          | Some le =>
+              if enc_ok le && value_fits (fmt_of le) asz (f_lsda f) then
+                match ptr_spec le asz (sb_pb b (Some ia)) pos3 (f_lsda f) with
+                | Some (ind, la) =>
+                    Some (mkfde o len (f_fmt64 f) ci ia (f_range f) (Some (Some (mkptr ind la)))
+                                (mkrd (pos3 + blen ad) (f_instr f)))
+                | None => None
+                end
+              else None
+          | None => Some (mkfde o len (f_fmt64 f) ci ia (f_range f) (Some None) (mkrd (pos3 + blen ad) (f_instr f)))
+          end
+        else None
+      else Some (mkfde o len (f_fmt64 f) ci ia (f_range f) None (mkrd pos2 (f_instr f)))
+  end.
+
+(* the parsed CIE agrees with the record about what FDEs need from it *)
+Definition cie_links (c : scfg) (cr : cie_rec) (ci : cie) : Prop :=
+  ci_asz ci = cie_asz (sp_of c) cr /\
+  (match ci_aug ci with Some a => a_fde_enc a | None => None end) = find_R (c_items cr) /\
+  (match ci_aug ci with Some a => a_lsda a | None => None end) = find_L (c_items cr) /\
+  (match ci_aug ci with Some _ => true | None => false end) = has_aug cr.
+
+Lemma enc_ok_split : forall e, enc_ok e = true -> e < 256 /\ valid_spec e = true /\ e <> 255.
+Proof.
+  intros e H. unfold enc_ok in H. repeat rewrite andb_true_iff in H. destruct H as [[H1 H2] H3].
+  split; [lia|]. split; [exact H2|]. lia.
+Qed.
+
+Lemma fde_body_enc : forall dbg c sec cr ci f o len co tf fd,
+  asz_ok (cie_asz (sp_of c) cr) ->
+  cie_from_offset dbg c sec co = Ok ci -> cie_links c cr ci ->
+  exp_fde c cr ci f o len tf = Some fd ->
+  fde_parse dbg c sec (mkpfde o len (f_fmt64 f) co (mkrd tf (fde_tail (sp_of c) cr f))) = Ok fd.
+Proof.
+  intros dbg c sec cr ci f o len co tf fd Hasz Hci (Hl1 & Hl2 & Hl3 & Hl4) Hexp.
+  unfold fde_parse. cbn [pf_cie_off pf_rest pf_off pf_len pf_fmt64]. rewrite Hci. cbn [bind].
+  unfold exp_fde in Hexp. cbv zeta in Hexp.
+  unfold fde_tail. cbv zeta. cbn [sp_of s_be] in *.
+  set (asz := cie_asz (sp_of c) cr) in *.
+  unfold fde_addresses. rewrite Hl2, Hl1. fold asz.
+  destruct (find_R (c_items cr)) as [e|] eqn:ER.
+  - (* encoded addresses *)
+    destruct (enc_ok e && value_fits (fmt_of e) asz (f_init f) && value_fits (fmt_of e) asz (f_range f)) eqn:Hok; [|discriminate].
+    repeat rewrite andb_true_iff in Hok. destruct Hok as [[Heok Hfi] Hfr].
+    apply enc_ok_split in Heok as (He & Hv & H255).
+    destruct (ptr_spec e asz (sb_pb (sc_bases c) None) tf (f_init f)) as [[ind ia]|] eqn:Hps; [|discriminate].
+    rewrite (pep_enc dbg (sc_be c) e (mkpp (sc_bases c) None asz) tf (f_init f) _ ind ia); try assumption.
+    cbn [bind pp_asz].
+    destruct (pe_decomp_base e He) as (Hfmt & _).
+    assert (Hfv : fmt_valid (pe_format e) = true).
+    { unfold valid_spec in Hv. destruct (e =? 255) eqn:E; [lia|]. cbn [orb] in Hv. apply andb_true_iff in Hv. rewrite Hfmt. tauto. }
+    rewrite <- Hfmt in *.
+    rewrite (pev_enc dbg (sc_be c) e (mkpp (sc_bases c) None asz)); try assumption.
+    cbn [bind pp_asz].
+    assert (Hpv : pointer_value (mkptr ind ia) = ia) by (destruct ind; reflexivity). rewrite Hpv.
+    destruct (has_aug cr) eqn:Haug.
+    + destruct (ci_aug ci) as [a|]; [|discriminate].
+      destruct (blen (_ ++ f_pad f) <? 2 ^ 64) eqn:Hlen; [|discriminate].
+      unfold fde_aug_data. rewrite <- (app_assoc (enc_uleb _)).
+      rewrite (lift_app _ _ _ _ _ (blen ((match find_L (c_items cr) with Some e0 => enc_value (fmt_of e0) asz (sc_be c) (f_lsda f) | None => [] end) ++ f_pad f))) by (apply read_uleb_enc; lia).
+      cbn [bind]. change blen with nlen. rewrite rd_split_app. cbn [bind].
+      rewrite Hl3.
+      destruct (find_L (c_items cr)) as [le|] eqn:EL.
+      * destruct (enc_ok le && value_fits (fmt_of le) asz (f_lsda f)) eqn:Hlok; [|discriminate].
+        apply andb_true_iff in Hlok as [Hleok Hlfit]. apply enc_ok_split in Hleok as (Hle & Hlv & Hl255).
+        match type of Hexp with match ?P with Some _ => _ | None => _ end = _ => destruct P as [[lind la]|] eqn:Hlps; [|discriminate] end.
+        rewrite (pep_enc dbg (sc_be c) le (mkpp (sc_bases c) (Some ia) asz) _ (f_lsda f) _ lind la); try assumption.
+        cbn [bind]. injection Hexp as <-. reflexivity.
+      * cbn [bind]. injection Hexp as <-. reflexivity.
+    + destruct (ci_aug ci) as [a|]; [discriminate|]. cbn [bind]. injection Hexp as <-. reflexivity.
+  - (* plain addresses *)
+    destruct ((f_init f <? 2 ^ (8 * asz)) && (f_range f <? 2 ^ (8 * asz))) eqn:Hok; [|discriminate].
+    apply andb_true_iff in Hok as [Hi Hr].
+    unfold enc_value in *. cbn [N.eqb] in *.
+    rewrite !read_address_ok_fun by exact Hasz.
+    rewrite (lift_app _ _ _ _ _ (f_init f)) by (apply read_un_small; rewrite N2Nat.id, pow256; lia). cbn [bind].
+    rewrite (lift_app _ _ _ _ _ (f_range f)) by (apply read_un_small; rewrite N2Nat.id, pow256; lia). cbn [bind].
+    destruct (has_aug cr) eqn:Haug.
+    + destruct (ci_aug ci) as [a|]; [|discriminate].
+      destruct (blen (_ ++ f_pad f) <? 2 ^ 64) eqn:Hlen; [|discriminate].
+      unfold fde_aug_data. rewrite <- (app_assoc (enc_uleb _)).
+      rewrite (lift_app _ _ _ _ _ (blen ((match find_L (c_items cr) with Some e0 => (if fmt_of e0 =? 0 then un_bytes (N.to_nat asz) (sc_be c) (f_lsda f) else _) | None => [] end) ++ f_pad f))) by (apply read_uleb_enc; lia).
+      cbn [bind]. change blen with nlen. rewrite rd_split_app. cbn [bind].
+      rewrite Hl3.
+      destruct (find_L (c_items cr)) as [le|] eqn:EL.
+      * destruct (enc_ok le && value_fits (fmt_of le) asz (f_lsda f)) eqn:Hlok; [|discriminate].
+        apply andb_true_iff in Hlok as [Hleok Hlfit]. apply enc_ok_split in Hleok as (Hle & Hlv & Hl255).
+        match type of Hexp with match ?P with Some _ => _ | None => _ end = _ => destruct P as [[lind la]|] eqn:Hlps; [|discriminate] end.
+        fold (enc_value (fmt_of le) asz (sc_be c) (f_lsda f)) in *.
+        rewrite (pep_enc dbg (sc_be c) le (mkpp (sc_bases c) (Some (f_init f)) asz) _ (f_lsda f) _ lind la); try assumption.
+        cbn [bind]. injection Hexp as <-. reflexivity.
+      * cbn [bind]. injection Hexp as <-. reflexivity.
+    + destruct (ci_aug ci) as [a|]; [discriminate|]. cbn [bind]. injection Hexp as <-. reflexivity.
+Qed.
